@@ -84,3 +84,13 @@ Fixpoint tb_run (s : tabst) (ops : list top) : tabst * list tout :=
 
 (* runs per job id, ids ascending *)
 Definition tb_final_runs (s : tabst) : list (N * N) := sort_by fst (tb_runs s).
+
+(* What a job's goroutine does to the table when it leaves through its context, timer or
+   no-more-instances branch.  As found it deleted BY NAME ([t_del]); RunJob and CancelJob release
+   the name when they claim the job, so by then the name may belong to a newer job.  Repaired
+   (removeJob): the entry is removed only while it still refers to the leaving job [j]. *)
+Definition t_release (t : table) (n : name) (j : N) : table :=
+  match t_get t n with
+  | Some j' => if j' =? j then t_del t n else t
+  | None => t
+  end.
